@@ -41,7 +41,7 @@ def script_for(expr, code, style, rng, n_ids, n_cells):
     # positions and routing at several navigation positions
     for step in range(3):
         if step > 0:
-            nav = rng.choice([{"op": "set_nav_node", "id": "${ID:%d}" % rng.randrange(n_ids), "offset": 0},
+            nav = rng.choice([{"op": "set_nav_node", "id": "${ID:%d}" % rng.randrange(n_ids), "offset": rng.choice([0, 0, 1, 2])},
                               {"op": "nav_cmd", "cmd": rng.choice(["ZoomIn", "MoveNext", "ZoomInAll", "MoveEnd", "ZoomOut"])}])
             ops.append(nav)
             tags.append(("nav",))
@@ -58,6 +58,14 @@ def script_for(expr, code, style, rng, n_ids, n_cells):
             q({"op": "node_from_braille", "pos": p}, ("route", p))
             # ... and the node it answered is brailled (what assistive technology does next): the same string as ever
             q({"op": "braille", "id": "${ROUTED}"}, ("hlr",))
+        # the round trip assistive technology makes: the node routing answered becomes the navigation node, with an offset into
+        # it, and the position is asked for again - still inside the braille, start <= end
+        for off in (1, 2):
+            ops.append({"op": "set_nav_node", "id": "${ROUTED}", "offset": off})
+            tags.append(("nav",))
+            ops.extend(dict(o) for o in READ)
+            tags.extend([("r",), ("r",)])
+            q({"op": "braille_pos"}, ("pos",))
     ops += [{"op": "braille", "id": ""}, {"op": "speech"}]
     tags += [("endplain",), ("endspeech",)]
     return {"ops": ops, "tags": tags, "code": code, "style": style, "expr": expr}
